@@ -19,6 +19,11 @@ class Crash(Exception):
     """An unexpected (non-ResolverError) exception raised by a resolver."""
 
 
+class CrashBase(BaseException):
+    """An unexpected exception that is no Exception (what `sys.exit()` or a cancellation signal inside application code
+    raises): a pool stores it as the task's outcome like any other."""
+
+
 # the library's own control flow uses some built-in exception classes (IndexError to end a loop,
 # KeyError / AttributeError in look-ups, ...): a resolver raising one of them is still unexpected
 CRASH_CLASSES = [Crash] + [type("Crash" + b.__name__, (Crash, b), {})
